@@ -153,6 +153,38 @@ func Make(w, h int, content, alpha string, seed int64) *image.NRGBA {
 					r.n(2)
 					c = color.NRGBA{uint8(40 + 20*(hsh%7)), uint8(90 + 9*(hsh%11)), 120, 255}
 				}
+			case strings.HasPrefix(content, "noiseflat"):
+				// grey noise everywhere except K consecutive flat 16x16 blocks ("noiseflat<K>", from
+				// macroblock (1,1) rightwards): K of the picture's N macroblocks can be skipped, so the
+				// skip probability (N-K)*255/N is swept through its upper range by varying K and N
+				k, _ := strconv.Atoi(content[len("noiseflat"):])
+				v := uint8(40 + r.n(176))
+				bx, by := x/16, y/16
+				mbw := (w + 15) / 16
+				if i := by*mbw + bx - (mbw + 1); i >= 0 && i < k {
+					v = 128
+				}
+				c = color.NRGBA{v, v, v, 255}
+			case content == "tiebands":
+				// alternating 8-pixel bands of many-colour noise and of one flat colour: searches that
+				// minimise a cost meet exact ties (all residuals zero) right next to unique optima, so
+				// whatever breaks the tie (a hint carried from a neighbour, a visiting order) shows
+				n1, n2, n3 := r.n(256), r.n(256), r.n(256)
+				if (y/8)%2 == 1 {
+					c = color.NRGBA{uint8(30 + 7*(y/8)), uint8(200 - 5*(y/8)), 90, 255}
+				} else {
+					c = color.NRGBA{uint8(n1), uint8(n2), uint8(n3), 255}
+				}
+			case content == "ramptex":
+				// correlated colour ramps with a mild texture, and a nearly flat dark band along the left
+				// edge: cross-colour and predictor searches with many equal-cost candidates
+				n := r.n(8)
+				if x < w/8 {
+					c = color.NRGBA{uint8(8 + y%3), 0, uint8(16 + n/4), 255}
+				} else {
+					g := (x*2 + y + n) & 0xff
+					c = color.NRGBA{uint8((g*3/4 + y/2 + n/2) & 0xff), uint8(g), uint8((g/2 + x/3 + 40 + n) & 0xff), 255}
+				}
 			case content == "oneflat":
 				// one regular fine texture everywhere except one flat 16x16 block: every
 				// macroblock but one has the same complexity (skewed segment populations)
